@@ -1,17 +1,26 @@
-"""C03 -- released resources come back exactly once and completely (scheduler side)."""
+"""C03 -- released resources come back exactly once and completely.
+Scheduler side: the node map, the holder count and capacity restoration over random scheduler histories.
+Executor side : every task the executor received asks for its release exactly once, whatever way it ends and
+whichever thread ends it (harness/execside.py)."""
 from .c01 import SchedProp
+from .execside import ExecSide
 
 
-class C03(SchedProp):
+class C03(ExecSide, SchedProp):
     id = 'C03'
     module = 'c03'
     props_files = ['Props/C03.v']
     row_fn = 'c03_row'
     clauses = ['map_is_initial_plus_held', 'active_count_is_holders', 'quiescent_capacity_restored',
                'app_supplied:map_is_initial_plus_held', 'app_supplied:active_count_is_holders',
-               'app_supplied:quiescent_capacity_restored']
+               'app_supplied:quiescent_capacity_restored'] + ['exec:unscheduled_once']
+    exec_sel = ['unscheduled_once']
+    extra_targets = SchedProp.extra_targets + ['Exec/Oracle.vo']
+    model_targets = SchedProp.model_targets + ['Exec/Oracle.vo']
+    trusted = SchedProp.trusted + [ExecSide.exec_trusted]
+    impl_timeout = 1500
     rule = ('random scheduler histories as for C01, most of them ending with the release of every started task; '
-            'non-trivial = >= 2 tasks held simultaneously and >= 1 task waited')
+            'non-trivial = >= 2 tasks held simultaneously and >= 1 task waited; ' + ExecSide.exec_rule)
 
 
 PROP = C03()
